@@ -1,3 +1,4 @@
 pub mod calendar;
 pub mod fmt_spec;
 pub mod instant;
+pub mod pattern_gen;
